@@ -707,6 +707,160 @@ def _count(what: str, n) -> None:
         LOCAL_REWRITES[what] = LOCAL_REWRITES.get(what, 0) + n
 
 
+def _iterator_frames_to_lists(fn: ast.FunctionDef) -> int:
+    """A local that holds `iter(sorted(E))` and is advanced only by `next((x for x in R if C(x)), None)` / `next(R, None)`
+    is read as the list `sorted(E, reverse=True)` consumed from the back:
+        s = next((x for x in R if C(x)), None)
+    becomes
+        while len(R) > 0 and not C(R[-1]): R.pop()
+        if len(R) > 0: s = R.pop()   else: s = None
+    (the same elements are skipped and the same element is taken; what remains in R is what the iterator would still
+    yield). R may travel through tuple frames of a work list in between."""
+    import copy as _copy
+    iters = set()
+    for n in ast.walk(fn):
+        if isinstance(n, ast.Assign) and len(n.targets) == 1 and isinstance(n.targets[0], ast.Name) and isinstance(n.value, ast.Call) \
+                and isinstance(n.value.func, ast.Name) and n.value.func.id == "iter" and len(n.value.args) == 1 \
+                and isinstance(n.value.args[0], ast.Call) and isinstance(n.value.args[0].func, ast.Name) and n.value.args[0].func.id == "sorted" \
+                and not any(k.arg == "reverse" for k in n.value.args[0].keywords):
+            iters.add(n.targets[0].id)
+    if not iters:
+        return 0
+    # every load of R is: the argument of next(..) in one of the two forms, an element of a tuple (frame), or `R is None`
+    for R in list(iters):
+        for n in ast.walk(fn):
+            if isinstance(n, ast.Name) and n.id == R and isinstance(n.ctx, ast.Load):
+                ok = False
+                for p_ in ast.walk(fn):
+                    if isinstance(p_, ast.Tuple) and n in p_.elts:
+                        ok = True
+                    if isinstance(p_, ast.Compare) and p_.left is n and len(p_.ops) == 1 and isinstance(p_.ops[0], (ast.Is, ast.IsNot)):
+                        ok = True
+                    if isinstance(p_, ast.Call) and isinstance(p_.func, ast.Name) and p_.func.id == "next" and len(p_.args) == 2 \
+                            and isinstance(p_.args[1], ast.Constant) and p_.args[1].value is None:
+                        a0 = p_.args[0]
+                        if a0 is n:
+                            ok = True
+                        if isinstance(a0, ast.GeneratorExp) and len(a0.generators) == 1 and a0.generators[0].iter is n \
+                                and isinstance(a0.generators[0].target, ast.Name) and isinstance(a0.elt, ast.Name) \
+                                and a0.elt.id == a0.generators[0].target.id:
+                            ok = True
+                if not ok:
+                    iters.discard(R)
+    if not iters:
+        return 0
+    count = 0
+
+    def block(body: list) -> None:
+        nonlocal count
+        i = 0
+        while i < len(body):
+            st = body[i]
+            if isinstance(st, ast.Assign) and len(st.targets) == 1 and isinstance(st.targets[0], ast.Name):
+                v = st.value
+                if st.targets[0].id in iters and isinstance(v, ast.Call) and isinstance(v.func, ast.Name) and v.func.id == "iter":
+                    srt = v.args[0]
+                    srt.keywords.append(ast.keyword("reverse", ast.Constant(True)))
+                    st.value = srt
+                    count += 1
+                elif isinstance(v, ast.Call) and isinstance(v.func, ast.Name) and v.func.id == "next" and len(v.args) == 2:
+                    a0 = v.args[0]
+                    R = a0.id if isinstance(a0, ast.Name) else a0.generators[0].iter.id if isinstance(a0, ast.GeneratorExp) and isinstance(a0.generators[0].iter, ast.Name) else None
+                    if R in iters:
+                        S = st.targets[0].id
+                        last = ast.Subscript(ast.Name(R, ast.Load()), ast.UnaryOp(ast.USub(), ast.Constant(1)), ast.Load())
+                        nonempty = ast.Compare(ast.Call(ast.Name("len", ast.Load()), [ast.Name(R, ast.Load())], []), [ast.Gt()], [ast.Constant(0)])
+                        pop = ast.Call(ast.Attribute(ast.Name(R, ast.Load()), "pop", ast.Load()), [], [])
+                        out = []
+                        if isinstance(a0, ast.GeneratorExp) and a0.generators[0].ifs:
+                            x = a0.generators[0].target.id
+
+                            class Sub(ast.NodeTransformer):
+                                def visit_Name(self, n_):
+                                    return _copy.deepcopy(last) if n_.id == x and isinstance(n_.ctx, ast.Load) else n_
+                            conds = [Sub().visit(_copy.deepcopy(c)) for c in a0.generators[0].ifs]
+                            keep = conds[0] if len(conds) == 1 else ast.BoolOp(ast.And(), conds)
+                            skip = keep.operand if isinstance(keep, ast.UnaryOp) and isinstance(keep.op, ast.Not) else \
+                                ast.Compare(keep.left, [ast.In()], keep.comparators) if isinstance(keep, ast.Compare) and len(keep.ops) == 1 and isinstance(keep.ops[0], ast.NotIn) \
+                                else ast.UnaryOp(ast.Not(), keep)
+                            out.append(ast.While(ast.BoolOp(ast.And(), [_copy.deepcopy(nonempty), skip]), [ast.Expr(_copy.deepcopy(pop))], []))
+                        nxt = body[i + 1] if i + 1 < len(body) else None
+                        if isinstance(nxt, ast.If) and not nxt.orelse and isinstance(nxt.test, ast.Compare) and len(nxt.test.ops) == 1 \
+                                and isinstance(nxt.test.ops[0], ast.Is) and isinstance(nxt.test.left, ast.Name) and nxt.test.left.id == S \
+                                and isinstance(nxt.test.comparators[0], ast.Constant) and nxt.test.comparators[0].value is None \
+                                and nxt.body and isinstance(nxt.body[-1], (ast.Continue, ast.Return, ast.Break, ast.Raise)) \
+                                and not any(isinstance(y, ast.Name) and y.id == S for b_ in nxt.body for y in ast.walk(b_)):
+                            # `if s is None: <leave>` right behind it: the emptiness test takes its place
+                            empty = ast.Compare(ast.Call(ast.Name("len", ast.Load()), [ast.Name(R, ast.Load())], []), [ast.Eq()], [ast.Constant(0)])
+                            out.append(ast.If(empty, nxt.body, []))
+                            out.append(ast.Assign([ast.Name(S, ast.Store())], _copy.deepcopy(pop)))
+                            del body[i + 1]
+                        else:
+                            out.append(ast.If(_copy.deepcopy(nonempty), [ast.Assign([ast.Name(S, ast.Store())], _copy.deepcopy(pop))],
+                                              [ast.Assign([ast.Name(S, ast.Store())], ast.Constant(None))]))
+                        for o in out:
+                            ast.copy_location(o, st)
+                            ast.fix_missing_locations(o)
+                            for y in ast.walk(o):
+                                if hasattr(y, "lineno"):
+                                    y.lineno = y.end_lineno = st.lineno
+                        body[i:i + 1] = out
+                        i += len(out) - 1
+                        count += 1
+            if not isinstance(st, (ast.FunctionDef, ast.ClassDef)):
+                for fld in ("body", "orelse", "finalbody"):
+                    sub = getattr(st, fld, None)
+                    if isinstance(sub, list) and sub and isinstance(sub[0], ast.stmt):
+                        block(sub)
+                for h in getattr(st, "handlers", []) or []:
+                    block(h.body)
+            i += 1
+    block(fn.body)
+    if count:
+        ast.fix_missing_locations(fn)
+    return count
+
+
+def _hoist_if_walrus(fn: ast.AST) -> int:
+    """`if (v := E) is not None: B`  ->  `v = E; if v is not None: B`  (the assignment expression is the first thing the test
+    evaluates, so binding it in a statement before the `if` changes nothing)."""
+    count = 0
+
+    def block(body: list) -> None:
+        nonlocal count
+        i = 0
+        while i < len(body):
+            st = body[i]
+            if isinstance(st, ast.If):
+                t = st.test
+                first = t.left if isinstance(t, ast.Compare) else t.operand if isinstance(t, ast.UnaryOp) and isinstance(t.op, ast.Not) else t
+                if isinstance(first, ast.NamedExpr) and isinstance(first.target, ast.Name) \
+                        and sum(1 for y in ast.walk(t) if isinstance(y, ast.NamedExpr)) == 1:
+                    asg = ast.copy_location(ast.Assign([ast.Name(first.target.id, ast.Store())], first.value), st)
+                    nm = ast.copy_location(ast.Name(first.target.id, ast.Load()), first)
+                    if isinstance(t, ast.Compare):
+                        t.left = nm
+                    elif isinstance(t, ast.UnaryOp):
+                        t.operand = nm
+                    else:
+                        st.test = nm
+                    ast.fix_missing_locations(asg)
+                    body.insert(i, asg)
+                    count += 1
+                    i += 1
+            if not isinstance(st, (ast.FunctionDef, ast.ClassDef)):
+                for fld in ("body", "orelse", "finalbody"):
+                    sub = getattr(st, fld, None)
+                    if isinstance(sub, list) and sub and isinstance(sub[0], ast.stmt):
+                        block(sub)
+                for h in getattr(st, "handlers", []) or []:
+                    block(h.body)
+            i += 1
+    if hasattr(fn, "body"):
+        block(fn.body)
+    return count
+
+
 def _while_true_flag(fn: ast.FunctionDef) -> int:
     """`while True: F = False; BODY; if not F: return E` (no `continue` at this level, F only ever raised in BODY)
         ->  `F = True; while F: F = False; BODY` followed by `return E`: the fixpoint loop with its flag in the condition."""
@@ -977,6 +1131,7 @@ def _drop_local_annotations(tree: ast.Module) -> None:
         if isinstance(x, ast.FunctionDef):
             _count("local_constant_tuples", _inline_local_constant_tuples(x))
             _count("edge_data_locals", _edge_data_locals(x))
+            _count("iterator_frames_read_as_lists", _iterator_frames_to_lists(x))
     _DropAnn().visit(tree)
     # loops over short literal sequences are unrolled (`for v in (0, 1): ...`, `for bdd, up in ((p, True), (n, False)): ...`)
     from . import peval
@@ -999,6 +1154,7 @@ def _drop_local_annotations(tree: ast.Module) -> None:
             _count("complementary_ifs_merged", _merge_complementary_ifs(x))
             _count("joined_program_texts_split", _split_joined_adds(x))
             _count("while_true_fixpoints", _while_true_flag(x))
+            _count("walrus_tests_hoisted", _hoist_if_walrus(x))
             _count("dag_view_aliases", _inline_dag_view_aliases(x))
             _count("quantifiers_over_literal_tuples", _unroll_literal_quantifiers(x))
     for x in ast.walk(tree):
